@@ -51,7 +51,10 @@ def main():
             "serves_properties": sorted(claimed),
             "kind_free_text": "repository-specific static analyser: stdlib ast loader/resolver, per-function CFG with "
                               "dominators, guard-derived interval facts, polynomial/quasi-linear forms, exception-"
-                              "effect propagation over a resolved call graph; nothing in /repo is imported or run",
+                              "effect propagation over a resolved call graph, emission-schema and function normal forms, "
+                              "and a bounded folder (sa/fold.py, sa/objfold.py: the analyser's own evaluator of syntax trees on "
+                              "finite instance tables with stand-in objects) used to confirm or refute the documented meaning "
+                              "of small fragments; nothing in /repo is imported or run",
         }],
         "checks": checks,
         "not_applicable": na,
